@@ -41,13 +41,13 @@ type PkgReport struct {
 	DuplicateNames []string `json:"duplicate_names,omitempty"`
 	BadNames       []string `json:"bad_names,omitempty"`
 	// MultiFile: result of generating the unit's dependency file and its main file in ONE request ("" = not tried / same output)
-	MultiFile string `json:"multi_file,omitempty"`
-	Deterministic  bool     `json:"deterministic"`
-	ParseErrors    []string `json:"parse_errors,omitempty"`
-	CompileOK      bool     `json:"compile_ok"`
-	CompileError   string   `json:"compile_error,omitempty"`
-	BaseCompileOK  bool     `json:"base_compile_ok"` // the package without the fast-marshal files compiles
-	Linked         bool     `json:"linked"`
+	MultiFile     string   `json:"multi_file,omitempty"`
+	Deterministic bool     `json:"deterministic"`
+	ParseErrors   []string `json:"parse_errors,omitempty"`
+	CompileOK     bool     `json:"compile_ok"`
+	CompileError  string   `json:"compile_error,omitempty"`
+	BaseCompileOK bool     `json:"base_compile_ok"` // the package without the fast-marshal files compiles
+	Linked        bool     `json:"linked"`
 }
 
 type job struct {
@@ -111,6 +111,9 @@ func main() {
 			}
 			if *plain {
 				keys = append(keys, "plain")
+				if fl == "gogo" && u.Dep == nil {
+					keys = append(keys, "plainsz") // gogo types with a generated Size() but no Marshal()/Unmarshal()
+				}
 			}
 			for _, k := range keys {
 				in, err := corpus.Instantiate(u, fl, k)
